@@ -103,5 +103,65 @@ impl LexerHelper {
 //@before (line + 1, :: proof { if l.v_list().len() > 0 { lemma_ge_index(l.v_list(), l.v_list().len() - 1); } }
 //@end
 
+
+// ---------------------------------------------------------------------------------------------------------------------------
+// preprocess() of src/driver/preprocess.rs, verbatim: which position a syntax / semantic diagnostic looks up (C16: "reports the
+// line number, column and text of the line containing the offending token").  The assembler, its context and the helper's
+// construction are stubs that record, in a ghost trace, the position of the token the assembler refused and the newline list
+// the helper was built with; a proof block after the real `get_err_pos(..)` call (rewrite R7) records which position was
+// looked up and which line came back.  The message text itself is opaque (R3; the source slice: R9).
+pub tracked struct Trace {
+    pub ghost nl: Seq<usize>,            // newline list of the helper built for this input
+    pub ghost refused_at: Option<int>,   // start position of the token the assembler refused (UnrecognizedToken, incl. piggybacked errors)
+}
+pub tracked struct CiteLog { pub ghost cites: Seq<(int, int)> }   // (line cited, position looked up)
+impl CiteLog {
+    pub proof fn note_cite(tracked &mut self, line: int, pos: int)
+        ensures final(self).cites == old(self).cites.push((line, pos)),
+    { self.cites = self.cites.push((line, pos)); }
+}
+pub struct Token(pub usize, pub &'static str);
+pub enum ParseError {
+    UnrecognizedToken { token: (usize, Token, usize), expected: Vec<String> },
+    Other,
+}
+pub struct PreprocessorContext;
+pub struct PreprocessorOutput;
+impl PreprocessorContext { #[verifier::external_body] pub fn default() -> (r: PreprocessorContext) { PreprocessorContext } }
+impl PreprocessorOutput { #[verifier::external_body] pub fn default() -> (r: PreprocessorOutput) { PreprocessorOutput } }
+pub struct Preprocessor;
+impl Preprocessor {
+    #[verifier::external_body]
+    pub fn new() -> (r: Preprocessor) { Preprocessor }
+    // positions LALRPOP reports are offsets into the text it was given (assumed)
+    #[verifier::external_body]
+    pub fn parse(&self, ctx: &mut PreprocessorContext, out: &mut PreprocessorOutput, input: &str, Tracked(tr): Tracked<&mut Trace>) -> (r: Result<(), ParseError>)
+        ensures final(tr).nl == old(tr).nl,
+            final(tr).refused_at == (match r { Err(ParseError::UnrecognizedToken { token, expected }) => Some(token.0 as int), _ => None }),
+            r matches Err(ParseError::UnrecognizedToken { token, expected }) ==> token.0 <= input@.len() && expected@.len() > 0,
+    { unimplemented!() }
+}
+impl LexerHelper {
+    // ASSUMED (bounded Kani unit b_lexer_new): the helper holds the increasing byte positions of the newlines of the text
+    #[verifier::external_body]
+    pub fn new(input: &str, Tracked(tr): Tracked<&mut Trace>) -> (r: LexerHelper)
+        ensures r.wf(), final(tr).nl == r.v_list(), final(tr).refused_at == old(tr).refused_at, input@.len() <= r.v_len(),
+    { unimplemented!() }
+}
+
+//@fn src/driver/preprocess.rs preprocess
+//@contract
+//@ghost LexerHelper::new :: Tracked(verif_tr)
+//@ghost preprocessor.parse :: Tracked(verif_tr)
+//@after get_err_pos :: proof { verif_ct.note_cite(line as int, ($2) as int); }
+    ensures
+        // a diagnostic about a refused token looks up exactly that token's start position, once, and cites the line containing it
+        r is Err && final(verif_tr).refused_at is Some ==> final(verif_ct).cites == old(verif_ct).cites.push(
+            ((newlines_before(final(verif_tr).nl, final(verif_tr).refused_at->0 as usize) + 1) as int, final(verif_tr).refused_at->0)), //# C16 diagnostic.cites_the_line_of_the_refused_tokens_start
+        // nothing is looked up otherwise
+        r is Ok || final(verif_tr).refused_at is None ==> final(verif_ct).cites == old(verif_ct).cites, //# C16 diagnostic.no_other_lookup
+        r is Ok <==> final(verif_tr).refused_at is None && !(r is Err),
+//@end
+
 } // verus!
 fn main() {}
